@@ -482,12 +482,36 @@ static void dedupe_imports(Chunk **chunks, size_t num_chunks)
       }
       int ret_val = UncText::compare(s1, s2, std::min(s1.size(), s2.size()), options::mod_sort_case_sensitive());
 
+      // 'using A;' and 'using A.B;', 'import a.A;' and 'import a.B;' start alike: the rest of the line decides
+      // (a comment behind it does not make a line a different one)
+      Chunk *r1 = chunks[idx - 1]->GetNextNc();
+      Chunk *r2 = chunks[idx]->GetNextNc();
+
+      while (  ret_val == 0
+            && (  (  r1->IsNotNullChunk()
+                  && !r1->IsNewline())
+               || (  r2->IsNotNullChunk()
+                  && !r2->IsNewline())))
+      {
+         if (  r1->IsNullChunk()
+            || r2->IsNullChunk()
+            || r1->IsNewline()
+            || r2->IsNewline()
+            || r1->Len() != r2->Len()
+            || UncText::compare(r1->GetStr(), r2->GetStr(), r1->Len(), options::mod_sort_case_sensitive()) != 0)
+         {
+            ret_val = 1;
+         }
+         r1 = r1->GetNextNc();
+         r2 = r2->GetNextNc();
+      }
+
       if (ret_val == 0)
       {
          delete_chunks_on_line_having_chunk(chunks[idx - 1]);
       }
    }
-}
+} // dedupe_imports
 
 
 /**
